@@ -415,8 +415,12 @@ macro_rules! impl_cache_processor {
                     } => {
                         let cost = self.calculate_internal_cost(cost);
                         let (victim_sets, added) = self.policy.add(key, cost);
+                        #[cfg(transparencies_stretto_verif)]
+                        crate::verif::yield_point("proc.new.after_policy_add");
                         if added {
                             self.store.try_insert(key, value, conflict, expiration)?;
+                            #[cfg(transparencies_stretto_verif)]
+                            crate::verif::yield_point("proc.new.after_store_insert");
                             self.track_admission(key);
                         } else {
                             self.callback.on_reject(CrateItem {
@@ -430,6 +434,8 @@ macro_rules! impl_cache_processor {
 
                         if let Some(victims) = victim_sets {
                             for victim in victims {
+                                #[cfg(transparencies_stretto_verif)]
+                                crate::verif::yield_point("proc.new.victim");
                                 let sitem = self.store.try_remove(&victim.key, 0)?;
                                 if let Some(sitem) = sitem {
                                     let item = CrateItem {
@@ -452,12 +458,16 @@ macro_rules! impl_cache_processor {
                         external_cost,
                     } => {
                         let cost = self.calculate_internal_cost(cost) + external_cost;
+                        #[cfg(transparencies_stretto_verif)]
+                        crate::verif::yield_point("proc.update");
                         self.policy.update(&key, cost);
 
                         Ok(())
                     }
                     $item::Delete { key, conflict } => {
                         self.policy.remove(&key); // deals with metrics updates.
+                        #[cfg(transparencies_stretto_verif)]
+                        crate::verif::yield_point("proc.delete.after_policy_remove");
                         if let Some(sitem) = self.store.try_remove(&key, conflict)? {
                             self.callback.on_exit(Some(sitem.value.into_inner()));
                         }
